@@ -365,6 +365,14 @@ pub fn run(tier: Tier, seed: u64, replay: Option<String>) -> i32 {
     let jobs: Vec<(bool, usize)> = (0..progs.len()).flat_map(|i| [(false, i), (true, i)]).collect();
     par_for(jobs.len(), 1, |j| {
         let (m128, i) = jobs[j];
+        // the reference machine has a fixed memory map: on the 128K the ROM's own IM 1 handler pages
+        // memory (7FFD), which RefMachine does not model, so 128K programs use the IM 2 handler only
+        if m128 && !progs[i].im2 && progs[i].start_ei {
+            return;
+        }
+        if m128 && !progs[i].im2 && progs[i].body.iter().any(|e| matches!(e, Elem::Ei)) {
+            return;
+        }
         let n = run_program(&ctx, m128, &progs[i], frames, false);
         ctx.add_transitions(n);
         ctx.add_traces(1);
